@@ -133,21 +133,15 @@ def removeColumn (m : Matrix α) (column : Nat) : Res α :=
 
 /-! ### insert_row / insert_row_with (mod.rs:1361-1423, with fix E-02) -/
 
-/-- `for column in 0..columns { self.data.insert(self.get_index(row, column), value.clone()) }` -/
+/-- the loop of `insert_row` **before** fix 8d58bcc (`value.clone()` inside the loop):
+    `for column in 0..columns { self.data.insert(self.get_index(row, column), value.clone()) }`.
+    Kept because `Model/Survivor.lean` (C10) uses it for the panicking-`Clone` witness. -/
 def insertRowLoop (columns row : Nat) (value : α) : List Nat → List α → List α × Option PanicKind
   | [], data => (data, none)
   | column :: rest, data =>
     match vecInsert data (column + row * columns) value with
     | some data' => insertRowLoop columns row value rest data'
     | none => (data, some .index)
-
-/-- `insert_row` -/
-def insertRow (m : Matrix α) (row : Nat) (value : α) : Res α :=
-  if row ≤ m.rows then
-    match insertRowLoop m.columns row value (List.range m.columns) m.data with
-    | (data, none) => ⟨{ data := data, rows := m.rows + 1, columns := m.columns }, none⟩
-    | (data, some k) => ⟨{ m with data := data }, some k⟩
-  else ⟨m, some .explicit⟩
 
 /-- (fix E-02) `for (column, value) in new_values.into_iter().enumerate() { self.data.insert(self.get_index(row, column), value) }`,
     `column` being the running `enumerate` counter -/
@@ -170,24 +164,25 @@ def insertRowWith (m : Matrix α) (row : Nat) (values : List α) : Res α :=
     else ⟨m, some .explicit⟩
   else ⟨m, some .explicit⟩
 
+/-- `insert_row` (after fix 8d58bcc): `let new_values = vec![value; columns]` is built before
+    anything is modified, then the same enumerate-and-insert loop as `insert_row_with`. -/
+def insertRow (m : Matrix α) (row : Nat) (value : α) : Res α :=
+  if row ≤ m.rows then
+    match insertValuesLoop m.columns row 0 (List.replicate m.columns value) m.data with
+    | (data, none) => ⟨{ data := data, rows := m.rows + 1, columns := m.columns }, none⟩
+    | (data, some k) => ⟨{ m with data := data }, some k⟩
+  else ⟨m, some .explicit⟩
+
 /-! ### insert_column / insert_column_with (mod.rs:1435-1498, with fix E-04) -/
 
-/-- `for row in (0..rows).rev() { self.data.insert(self.get_index(row, column), value.clone()) }`;
-    the list argument is the reversed range. -/
+/-- the loop of `insert_column` **before** fix 8d58bcc (`value.clone()` inside the loop); the
+    list argument is the reversed range.  Kept beside `insertRowLoop`. -/
 def insertColumnLoop (columns column : Nat) (value : α) : List Nat → List α → List α × Option PanicKind
   | [], data => (data, none)
   | row :: rest, data =>
     match vecInsert data (column + row * columns) value with
     | some data' => insertColumnLoop columns column value rest data'
     | none => (data, some .index)
-
-/-- `insert_column` -/
-def insertColumn (m : Matrix α) (column : Nat) (value : α) : Res α :=
-  if column ≤ m.columns then
-    match insertColumnLoop m.columns column value (List.range m.rows).reverse m.data with
-    | (data, none) => ⟨{ data := data, rows := m.rows, columns := m.columns + 1 }, none⟩
-    | (data, some k) => ⟨{ m with data := data }, some k⟩
-  else ⟨m, some .explicit⟩
 
 /-- `for row in (0..rows).rev() { self.data.insert(self.get_index(row, column), array_values.pop().unwrap()) }`;
     `stack` is `array_values` **reversed**, so `pop` takes its head. -/
@@ -213,6 +208,16 @@ def insertColumnWith (m : Matrix α) (column : Nat) (values : List α) : Res α 
       | (data, none) => ⟨{ data := data, rows := m.rows, columns := m.columns + 1 }, none⟩
       | (data, some k) => ⟨{ m with data := data }, some k⟩
     else ⟨m, some .explicit⟩
+  else ⟨m, some .explicit⟩
+
+/-- `insert_column` (after fix 8d58bcc): `let mut new_values = vec![value; rows]` first, then the
+    reverse loop popping from it, exactly like `insert_column_with`. -/
+def insertColumn (m : Matrix α) (column : Nat) (value : α) : Res α :=
+  if column ≤ m.columns then
+    match insertColumnWithLoop m.columns column (List.range m.rows).reverse
+            (List.replicate m.rows value).reverse m.data with
+    | (data, none) => ⟨{ data := data, rows := m.rows, columns := m.columns + 1 }, none⟩
+    | (data, some k) => ⟨{ m with data := data }, some k⟩
   else ⟨m, some .explicit⟩
 
 /-! ### retain_mut / retain (mod.rs:625-680, 1504-1508, with fix E-03) -/
@@ -320,6 +325,43 @@ def mapMutWithIndex (m : Matrix α) (f : α → Nat → Nat → α) : Res α :=
     m.data
   ⟨{ m with data := data' }, none⟩
 
+/-! ### map / map_with_index (allocating), scalar (mod.rs:1316-1364, 1266-1277) -/
+
+/-- `map` with an `α → α` function (the driver replaces its matrix by the result):
+    `from_flat_row_major(self.size(), self.data.iter().map(f).collect())` -/
+def mapAlloc (m : Matrix α) (f : α → α) : Res α :=
+  match fromFlatRowMajor m.rows m.columns (m.data.map f) with
+  | some r => ⟨r, none⟩
+  | none => ⟨m, some .explicit⟩
+
+/-- the item the mapped, indexed, copying iterator yields at `(i, j)`: `f(element, i, j)` -/
+def mappedGetP (m : Matrix α) (f : α → Nat → Nat → α) (i j : Nat) : Outcome α :=
+  match m.getP i j with
+  | .ok x => .ok (f x i j)
+  | .panic k => .panic k
+
+/-- `map_with_index`: the copying row-major iterator with index visits every `(i, j)` of the size,
+    the mapped values are collected and handed to `from_flat_row_major(self.size(), …)` -/
+def mapWithIndex (m : Matrix α) (f : α → Nat → Nat → α) : Res α :=
+  match fromFn m.rows m.columns (m.mappedGetP f) with
+  | .ok r => ⟨r, none⟩
+  | .panic k => ⟨m, some k⟩
+
+/-- `scalar`: two asserts (exactly one row, exactly one column), then `get(0, 0)` -/
+def scalarP (m : Matrix α) : Outcome α :=
+  if m.rows = 1 then
+    if m.columns = 1 then m.getP 0 0 else .panic .explicit
+  else .panic .explicit
+
+/-- `try_into_scalar`: `Ok(first element)` iff the size is `(1, 1)` (`none` = `Err`); the
+    `unwrap` of the first element panics on an empty storage -/
+def tryIntoScalar (m : Matrix α) : Outcome (Option α) :=
+  if m.rows = 1 ∧ m.columns = 1 then
+    match m.data with
+    | x :: _ => .ok (some x)
+    | [] => .panic .unwrap
+  else .ok none
+
 /-! ### operations as data, histories -/
 
 /-- The operation alphabet of C11. -/
@@ -337,6 +379,8 @@ inductive Op (α : Type) where
   | set (row column : Nat) (value : α)
   | mapMut (f : α → α)
   | mapMutWithIndex (f : α → Nat → Nat → α)
+  | map (f : α → α)
+  | mapWithIndex (f : α → Nat → Nat → α)
 
 /-- Run one operation: the matrix left behind and the panic, if any. -/
 def exec (m : Matrix α) : Op α → Res α
@@ -353,6 +397,8 @@ def exec (m : Matrix α) : Op α → Res α
   | .set row column v => m.set row column v
   | .mapMut f => m.mapMut f
   | .mapMutWithIndex f => m.mapMutWithIndex f
+  | .map f => m.mapAlloc f
+  | .mapWithIndex f => m.mapWithIndex f
 
 /-- `step` in the usual `Outcome` form: the new matrix, or the panic (the matrix that survives a
     panic is `(exec m op).state`; `panic_frame` proves it is `m`). -/
@@ -371,6 +417,88 @@ def run (m : Matrix α) : List (Op α) → Matrix α
 def runTrace (m : Matrix α) : List (Op α) → List Bool
   | [] => []
   | op :: ops => (exec m op).panic.isSome :: runTrace (exec m op).state ops
+
+/-! ### every public constructor (mod.rs:80-272, 1207-1229, 1753-1789) -/
+
+/-- `from_flat_row_major`: `assert!(size.0.checked_mul(size.1) == Some(values.len()))`,
+    `assert!(!values.is_empty())` -/
+def fromFlatRowMajorC (rows columns : Nat) (values : List α) : Outcome (Matrix α) :=
+  if rows * columns ≤ usizeMax ∧ rows * columns = values.length then
+    if values ≠ [] then .ok ⟨values, rows, columns⟩ else .panic .explicit
+  else .panic .explicit
+
+/-- `empty(value, (rows, columns))`: `assert!(rows > 0 && columns > 0)`, the checked product,
+    `vec![value; length]` -/
+def emptyC (value : α) (rows columns : Nat) : Outcome (Matrix α) :=
+  if 0 < rows ∧ 0 < columns then
+    if rows * columns ≤ usizeMax then
+      .ok ⟨List.replicate (rows * columns) value, rows, columns⟩
+    else .panic .explicit
+  else .panic .explicit
+
+/-- `from_fn` with its leading overflow check (`fromFn` above is the part after it; `transpose`
+    calls it with `columns * rows = data.len()`, where the check cannot fail) -/
+def fromFnC (rows columns : Nat) (producer : Nat → Nat → α) : Outcome (Matrix α) :=
+  if rows * columns ≤ usizeMax then fromFn rows columns fun r c => .ok (producer r c)
+  else .panic .explicit
+
+/-- `for (i, element) in values.into_iter().enumerate() { matrix.set(i, i, element) }`
+    (`from_diagonal`), and with `values = [value.clone(); n]` the loop
+    `for i in 0..size.0 { matrix.set(i, i, value.clone()) }` of `diagonal`; `i` is the counter -/
+def setDiagLoop : Nat → List α → Matrix α → Res α
+  | _, [], m => ⟨m, none⟩
+  | i, x :: xs, m =>
+    match m.set i i x with
+    | ⟨m1, none⟩ => setDiagLoop (i + 1) xs m1
+    | ⟨m1, some k⟩ => ⟨m1, some k⟩
+
+/-- `diagonal(value, (rows, columns))`: `assert!(rows == columns)`, `empty(T::zero(), size)`, the
+    diagonal writes -/
+def diagonalC (zero value : α) (rows columns : Nat) : Outcome (Matrix α) :=
+  if rows = columns then
+    match emptyC zero rows columns with
+    | .panic k => .panic k
+    | .ok m =>
+      match setDiagLoop 0 (List.replicate rows value) m with
+      | ⟨m', none⟩ => .ok m'
+      | ⟨_, some k⟩ => .panic k
+  else .panic .explicit
+
+/-- `from_diagonal(values)`: `empty(T::zero(), (n, n))` with `n = values.len()`, the diagonal writes -/
+def fromDiagonalC (zero : α) (values : List α) : Outcome (Matrix α) :=
+  match emptyC zero values.length values.length with
+  | .panic k => .panic k
+  | .ok m =>
+    match setDiagLoop 0 values m with
+    | ⟨m', none⟩ => .ok m'
+    | ⟨_, some k⟩ => .panic k
+
+/-- The public constructors of `Matrix<T>` as data (`zero` stands for `T::zero()`). -/
+inductive Ctor (α : Type) where
+  | fromScalar (value : α)                                   -- `from_scalar`, `unit`
+  | row (values : List α)
+  | column (values : List α)
+  | fromRows (values : List (List α))                        -- `Matrix::from`
+  | fromFlatRowMajor (rows columns : Nat) (values : List α)
+  | fromFn (rows columns : Nat) (producer : Nat → Nat → α)
+  | empty (value : α) (rows columns : Nat)
+  | diagonal (zero value : α) (rows columns : Nat)
+  | fromDiagonal (zero : α) (values : List α)
+
+/-- Run a constructor: the matrix, or the panic. -/
+def Ctor.build : Ctor α → Outcome (Matrix α)
+  | .fromScalar value => .ok ⟨[value], 1, 1⟩
+  | .row values => if values ≠ [] then .ok ⟨values, 1, values.length⟩ else .panic .explicit
+  | .column values => if values ≠ [] then .ok ⟨values, values.length, 1⟩ else .panic .explicit
+  | .fromRows values =>
+    match Matrix.fromRows values with
+    | some m => .ok m
+    | none => .panic .explicit
+  | .fromFlatRowMajor rows columns values => fromFlatRowMajorC rows columns values
+  | .fromFn rows columns producer => fromFnC rows columns producer
+  | .empty value rows columns => emptyC value rows columns
+  | .diagonal zero value rows columns => diagonalC zero value rows columns
+  | .fromDiagonal zero values => fromDiagonalC zero values
 
 /-! ### the unrepaired code (pinned commit), kept for the defect witnesses -/
 
